@@ -39,6 +39,12 @@ def knobs_from(rng, tier):
     }
 
 
+def gen_pauses(rr, p=0.2):
+    if rr.random() >= p:
+        return []
+    return [[rr.choice([0.5, 2.0, 4.0, 8.0, 15.0, 30.0, 60.0]), rr.choice([1.0, 5.0, 20.0])] for _ in range(rr.choice([1, 1, 2]))]
+
+
 def setup_run(case, schedule, opts, tag='run'):
     """common prologue of an E1 run inside the forked child; returns (simk, R, K, root)"""
     from sim import kernel as simk
